@@ -11,6 +11,13 @@ def spec(tier, seed):
     for k, v in c6["generated"].items():
         generated[k] = generated.get(k, "") + v
     jobs += [j for j in c6["jobs"] if "sorenson" in j.harness or "_k0_" in j.harness]
+    from vf import gen_reader as gr
+    rgen = ""
+    hs = [h for h in gr.build(tier, seed) if any(o[0] == "commit" for (_, ops) in h[2] for o in ops)]
+    for (name, L, chunk, unwind) in (hs if tier == "thorough" else hs[:5]):
+        rgen += gr.harness_src(name, L, chunk, unwind)
+        jobs.append(Job("h263", name, 900, group="reader: commit keeps the position (also at byte boundaries)", params={"sequences": [gr.describe(p_, o_) for p_, o_ in chunk]}))
+    generated["h263/src/parser/reader.rs"] = rgen
     return {"jobs": jobs, "generated": generated, "functions": m.FUNCS + c06.FUNCS, "stubs": m.STUBS + c06.STUBS,
             "rule": m.RULE + " C15 assertions: after a successful call the reader stands at a record boundary and no record beyond the picture's last macroblock was consumed (scenarios with more macroblock records than the picture holds: the rest is left for the next call); "
                     "the header harnesses show that the next call finds a picture start code behind 0..7 zero padding bits at every bit phase, in Sorenson and standard mode, and consumes exactly the header.",
